@@ -4,6 +4,7 @@ import (
 	"crypto/tls"
 	"fmt"
 	"net"
+	"strings"
 	"sync"
 	"time"
 
@@ -27,7 +28,11 @@ func runC18(s *kernel.Sim, _ string) {
 	hold := kernel.Pick(t, []time.Duration{50 * time.Millisecond, time.Second, 0}, "handler-hold")
 
 	p := &pipeline{}
-	p.gate = func(remote net.Addr, _ *dns.Msg) {
+	p.gate = func(remote net.Addr, req *dns.Msg) {
+		if len(req.Question) == 1 && strings.HasPrefix(req.Question[0].Name, "quick.") {
+			// A query that takes no time, from a connection of its own.
+			return
+		}
 		k := remote.String()
 		mu.Lock()
 		inFlight[k]++
@@ -101,6 +106,40 @@ func runC18(s *kernel.Sim, _ string) {
 					"limit %d burst %d: %d distinct IDs answered", limit, burst, len(seen))
 			}
 		})
+	}
+	// The limit is one connection's: while a connection keeps its slots busy
+	// for a second, a single quick query on a connection of its own is
+	// answered at once.
+	if hold >= time.Second && burst > limit {
+		for _, x := range []struct {
+			tr, addr string
+			tc       *tls.Config
+		}{{"tcp", addrDNS, nil}, {"dot", addrDoT, clientTLS("dns.sim.test")}} {
+			x := x
+			r.spawn("c18-other-"+x.tr, func(tk *task) {
+				// Let the burst arrive first.
+				time.Sleep(200 * time.Millisecond)
+				m := &dns.Msg{}
+				m.SetQuestion("quick.burst.test.", dns.TypeA)
+				m.Id = 999
+				raw, _ := m.Pack()
+				begin := time.Now()
+				frames, end := streamExchange(tk, n, x.addr, x.tc, [][]byte{withPrefix(raw)}, false)
+				_ = end
+				took := time.Since(begin)
+				tk.Probe("quick-query-beside-a-busy-connection")
+				if len(frames) == 0 {
+					tk.Failf("C18/pipeline-other-connection", x.tr+": a query on a connection of its own got no answer while another connection kept its pipeline busy",
+						"limit %d, burst %d on the other connection, hold %v, request timeout %v: %s", limit, burst, hold, reqTimeout, end)
+
+					return
+				}
+				if fm := (&dns.Msg{}); fm.Unpack(frames[0]) != nil || fm.Id != 999 {
+					return
+				}
+				_ = took
+			})
+		}
 	}
 	r.wait()
 	s.MarkNontrivial()
